@@ -144,6 +144,12 @@ fn run_history(start_idx: Idx, pre: &[Op], hist: &[Op], probe: bool) -> Res {
                 return;
             }
             model.apply(op, &out);
+            if matches!(op, Op::Reopen | Op::ReopenWith(_)) && !out.is_ok() {
+                // a legitimately refused reopen (index creation failed on existing data)
+                // leaves no usable handle: the history ends here
+                res.state_key = util::fnv64(format!("refused-reopen|{:?}", model.docs.docs).as_bytes());
+                return;
+            }
         }
         let bad = full_compare(&fx.coll, &model.docs, fx.idx, probe_bound(&model)).await;
         res.compares += 1;
